@@ -12,6 +12,7 @@ import (
 	"errors"
 	"fmt"
 	"os"
+	"sync"
 	"runtime"
 	"sort"
 	"strings"
@@ -65,6 +66,14 @@ type Case struct {
 	EmptyEvery    uint64          `json:"empty_every"`  // no attester duties at all in every EmptyEvery-th epoch (0: never)
 	ProposeEvery  uint64          `json:"propose_every"`
 	SyncMembers   int             `json:"sync_members"`
+	// DutyOn/DutyOff: attester duties exist for DutyOn epochs, then for DutyOff (>= 2) epochs there are
+	// none at all, repeated over the run (0/0: no such gaps).
+	DutyOn  uint64 `json:"duty_on"`
+	DutyOff uint64 `json:"duty_off"`
+	// OverlapEvery: in every OverlapEvery-th epoch the node is slow to return attester duties while
+	// (alternately) two root-changing head events arrive close together, or a root-changing head event
+	// arrives while the preparation of the next epoch is waiting for its duties (0: never).
+	OverlapEvery uint64 `json:"overlap_every"`
 }
 
 // pattern is the node's duty source: plain arithmetic on (epoch, version).
@@ -74,6 +83,9 @@ func (p pattern) Attester(epoch uint64, version int) []c03world.AttDuty {
 	c := p.c
 	spe := c.P.SlotsPerEpoch
 	if c.EmptyEvery > 0 && epoch%c.EmptyEvery == c.EmptyEvery-1 {
+		return nil
+	}
+	if c.DutyOn > 0 && c.DutyOff > 0 && epoch%(c.DutyOn+c.DutyOff) >= c.DutyOn {
 		return nil
 	}
 	var res []c03world.AttDuty
@@ -164,6 +176,11 @@ func genCase(t *rapid.T) Case {
 	c.EmptyEvery = rapid.SampledFrom([]uint64{0, 0, 3, 5}).Draw(t, "emptyEvery")
 	c.ProposeEvery = rapid.SampledFrom([]uint64{0, 2, 5, 9}).Draw(t, "proposeEvery")
 	c.SyncMembers = rapid.IntRange(0, nv).Draw(t, "syncMembers")
+	if rapid.Bool().Draw(t, "dutyGaps") {
+		c.DutyOn = rapid.Uint64Range(1, 4).Draw(t, "dutyOn")
+		c.DutyOff = rapid.Uint64Range(2, 4).Draw(t, "dutyOff")
+	}
+	c.OverlapEvery = rapid.SampledFrom([]uint64{0, 1, 2, 3}).Draw(t, "overlapEvery")
 	return c
 }
 
@@ -226,12 +243,15 @@ type runner struct {
 	series   map[string][]int // container -> size at the end of each epoch of the run
 	stale    map[uint64]bool  // slots already reported with a wrong pending mark
 	findings []finding
+	fmu      sync.Mutex
+	notPending map[uint64]bool
 
 	withdrawn       int // slots that had a job and lost their duty in a reorg
 	epochsNoHead    int
 	reorgs          int
 	attestations    int64
 	maxParked       int
+	overlaps        int
 	notQuiescent    int
 	inconclusiveWhy string
 }
@@ -311,7 +331,7 @@ func (r *runner) services(ctx context.Context, w *c03world.World, sched schedule
 
 	att, err := standardattester.New(ctx, standardattester.WithLogLevel(lvl), standardattester.WithProcessConcurrency(4), standardattester.WithChainTime(w.Clock),
 		standardattester.WithSpecProvider(w.Node), standardattester.WithAttestationDataProvider(attData), standardattester.WithAttestationsSubmitter(r.sink),
-		standardattester.WithMonitor(mon), standardattester.WithValidatingAccountsProvider(w.Accounts), standardattester.WithBeaconAttestationsSigner(fakeSigner{}))
+		standardattester.WithMonitor(mon), standardattester.WithValidatingAccountsProvider(w.Accounts), standardattester.WithBeaconAttestationsSigner(fakeSigner{onAttest: r.whileAttesting}))
 	if err != nil {
 		return s, err
 	}
@@ -371,7 +391,7 @@ func (r *runner) extraGoroutines() int {
 		return n + r.parked
 	}
 	count := runtime.NumGoroutine()
-	excess := count - (r.w.Baseline() + n)
+	excess := count - (r.w.Baseline() + n + r.w.Node.Held())
 	switch {
 	case excess <= 0:
 		r.parked = 0
@@ -415,6 +435,8 @@ func (r *runner) headsIn(epochInRun uint64) bool {
 }
 
 func (r *runner) add(sig, format string, a ...any) {
+	r.fmu.Lock()
+	defer r.fmu.Unlock()
 	r.findings = append(r.findings, finding{sig, fmt.Sprintf(format, a...)})
 }
 
@@ -509,6 +531,24 @@ func (r *runner) checkPending() {
 	}
 }
 
+// whileAttesting is called by the signer double when the attester asks for the
+// signatures of a slot, i.e. on the goroutine of the executing attestation job:
+// the slot must be reported as having pending attestations.
+func (r *runner) whileAttesting(slot uint64) {
+	w := r.w
+	if w == nil || w.Proc == nil || w.Proc.Ctrl == nil {
+		return
+	}
+	if !w.Proc.Ctrl.HasPendingAttestations(context.Background(), phase0.Slot(slot)) {
+		r.fmu.Lock()
+		if !r.notPending[slot] {
+			r.notPending[slot] = true
+			r.findings = append(r.findings, finding{"attesting-without-pending-mark", fmt.Sprintf("the attestation job of slot %d is executing (the attester is signing, clock slot %d) but HasPendingAttestations(%d) is false", slot, w.Slot(), slot)})
+		}
+		r.fmu.Unlock()
+	}
+}
+
 // history lists the recent scheduler operations on the attestation job of a slot.
 func (r *runner) history(slot uint64) string {
 	name := fmt.Sprintf("Attestations for slot %d", slot)
@@ -595,6 +635,69 @@ func (r *runner) judgeGrowth() {
 	}
 }
 
+// doubleHead: the node is slow to return attester duties; two head events, each
+// with changed dependent roots, arrive one after the other; then the node answers.
+// HandleHeadEvent starts its refreshes with `go`, so in production the second
+// refresh starts while the first is still waiting for its duties.
+func (r *runner) doubleHead(epoch, slot uint64) error {
+	w := r.w
+	if err := w.AdvanceTo(w.StartOfSlot(slot).Add(w.SlotDuration() / 20)); err != nil {
+		return err
+	}
+	w.Node.Hold("att")
+	for i := 0; i < 2; i++ {
+		w.Chain.ReorgPrevious(epoch)
+		r.reorgs++
+		if err := w.Head(0); err != nil {
+			return err
+		}
+		r.checkPending()
+	}
+	r.overlaps++
+	w.Node.Release("att")
+	if err := w.AdvanceTo(w.Clock.Now()); err != nil {
+		return err
+	}
+	r.checkPending()
+	return nil
+}
+
+// prepareAndHead: if the "Prepare for epoch" job is due in the rest of this slot,
+// it fires while the node is slow, and a head event with a changed current
+// dependent root (which refreshes the attester duties of the next epoch) arrives
+// before the node has answered.
+func (r *runner) prepareAndHead(epoch, slot uint64) error {
+	w := r.w
+	end := w.StartOfSlot(slot + 1).Add(-2 * time.Millisecond)
+	due := false
+	for _, j := range w.Jobs() {
+		if j.Kind == c03world.KPrepareEpoch && !j.Time.After(end) {
+			due = true
+		}
+	}
+	if !due {
+		return nil
+	}
+	w.Node.Hold("att")
+	if err := w.AdvanceTo(end); err != nil {
+		return err
+	}
+	r.checkPending()
+	w.Chain.ReorgCurrent(epoch)
+	r.reorgs++
+	if err := w.Head(0); err != nil {
+		return err
+	}
+	r.checkPending()
+	r.overlaps++
+	w.Node.Release("att")
+	if err := w.AdvanceTo(w.Clock.Now()); err != nil {
+		return err
+	}
+	r.checkPending()
+	return nil
+}
+
 func (r *runner) run() error {
 	c := r.c
 	r.pool = newPool(c.NodeMix, c.Providers)
@@ -602,6 +705,7 @@ func (r *runner) run() error {
 	r.parked = 0
 	r.series = map[string][]int{}
 	r.stale = map[uint64]bool{}
+	r.notPending = map[uint64]bool{}
 	r.ctx = context.Background()
 	opt := c03world.Options{
 		Services:        nil,
@@ -661,6 +765,13 @@ func (r *runner) run() error {
 				return err
 			}
 			r.checkPending()
+			overlap := heads && c.OverlapEvery > 0 && e > 0 && e%c.OverlapEvery == 0 && epoch >= 2
+			if overlap && (e/c.OverlapEvery)%2 == 0 && k == 1%spe {
+				// two root-changing head events close together while the node is slow
+				if err := r.doubleHead(epoch, slot); err != nil {
+					return err
+				}
+			}
 			if heads {
 				reorg := c.ReorgEvery > 0 && e%c.ReorgEvery == 0 && e > 0 && k == (e/c.ReorgEvery)%spe
 				before := r.attestJobSlots()
@@ -692,6 +803,12 @@ func (r *runner) run() error {
 					}
 				}
 				r.checkPending()
+			}
+			if overlap && (e/c.OverlapEvery)%2 == 1 {
+				// a root-changing head event while the preparation of the next epoch waits for its duties
+				if err := r.prepareAndHead(epoch, slot); err != nil {
+					return err
+				}
 			}
 			if err := w.AdvanceTo(w.StartOfSlot(slot + 1).Add(-time.Millisecond)); err != nil {
 				return err
@@ -806,6 +923,8 @@ func check(t ev.TB, c *Case) {
 	add(r.epochsNoHead > 0, "epochs-without-head-events")
 	add(simultaneous, "three-or-more-simultaneous-responders")
 	add(r.pool != nil && r.pool.never.Load() > 0, "node-never-answered")
+	add(r.overlaps > 0, "overlapping-duty-refreshes")
+	add(c.DutyOff > 0, "duty-gaps-of-two-or-more-epochs")
 	add(c.RealScheduler, "real-advanced-scheduler")
 	add(!c.RealScheduler, "reference-scheduler")
 	add(true, "strategy:"+c.Strategy)
@@ -862,6 +981,18 @@ func TestReplay(t *testing.T) {
 	f := ev.ReplayFile()
 	if f == "" {
 		t.Skip("no replay file")
+	}
+	var probe struct {
+		Unblinding bool `json:"unblinding"`
+	}
+	if _, err := ev.LoadCase(f, &probe); err == nil && probe.Unblinding {
+		var uc UCase
+		if _, err := ev.LoadCase(f, &uc); err != nil {
+			t.Fatalf("cannot load %s: %v", f, err)
+		}
+		checkUnblinding(t, &uc)
+		ev.ReplayPassed()
+		return
 	}
 	var c Case
 	if _, err := ev.LoadCase(f, &c); err != nil {
